@@ -144,6 +144,42 @@ def run(ctx):
             ctx.violation("comment %r at placement %s: the documented grammar gives %s, the readers give %s"
                           % (what["line"], what["site"], what["expected"], what["observed"]),
                           {"kind": "grammar", "scenario": group[idx], "detail": what})
+    # (3) effect: what the readers recognise takes effect through the checkers exactly where it is documented - several annotations on
+    # one type are judged one by one (Implements.tla, family multi), a method's @packageonly does not reach its receiver type and vice
+    # versa (PackageOnly.tla, single references)
+    import gen_impl
+    import gen_tonl
+    from checks import c04, c05
+    escs, _r = progcheck.tlc_scenarios(ctx, "Implements", c05.cfg("multi"), "c15_effect_impl")
+    eitems = []
+    for i, sc in enumerate(escs):
+        prog, _exp = gen_impl.build_impl(sc, "C15_eff_impl_%d" % i)
+        eset = {(c, tuple(sorted(m))) for c, m in ((sc["code"], sc["missing"]), (sc["code2"], sc["missing2"])) if c != "none"}
+        eitems.append((prog, eset, sc))
+    eres = proglib.run_vh(ctx, [it[0] for it in eitems])
+    for prog, eset, sc in eitems:
+        r = eres[prog["id"]]
+        total += 1
+        got = None if (r.get("fail") or r.get("err")) else gen_impl.observed_all(r["diags"])
+        if got != eset:
+            r2 = proglib.run_vh(ctx, [prog])[prog["id"]]
+            got2 = None if (r2.get("fail") or r2.get("err")) else gen_impl.observed_all(r2["diags"])
+            if got2 == eset:
+                raise vlib.ToolError("effect mismatch did not reproduce: %s" % sc["sc"])
+            if len(ctx.violations) < 3:
+                ctx.violation("two well-formed @implements lines on one type (second = %s, first qualifier %s): each must take effect on its own; expected %s, observed %s"
+                              % (sc["sc"]["second"], sc["sc"]["qual"], sorted(eset), sorted(got2) if got2 is not None else None),
+                              {"kind": "program", "program": prog, "expected": [], "cats": [], "scenario": sc["sc"]})
+    pscs, _r = progcheck.tlc_scenarios(ctx, "PackageOnly", c04.cfg("single"), "c15_effect_pkgo")
+    rep = progcheck.Replay(ctx, {"PKGO"})
+    pitems = []
+    for i, sc in enumerate(progcheck.sample(pscs, 400 if thorough else 150, ctx.seed)):
+        prog, exp, _tags = gen_tonl.build_pkgo(sc, "C15_eff_pkgo_%d" % i)
+        pitems.append((prog, exp, {"al": sc["al"], "pkg": sc["pkg"], "files": sc["files"]}))
+    rep.check(pitems)
+    rep.settle(describe=lambda m: "@packageonly (allow-list shape %s) seen from package %s, reference %s: the annotation must take effect at the item it documents only"
+               % (m["al"], m["pkg"], m["files"]))
+    total += rep.run
     return ctx.finish("model_checking", {
         "traces_validated_against_impl": total,
         "samples": samples[:3],
